@@ -250,8 +250,14 @@ def grounds(ctx, fn, N, R3="C03.3"):
     # type (by id); in every other case the two field types are compared structurally
     IA = "GenericsList::index_for_type_id(C1_1,C2_0.0.ty.id)"
     IB = "GenericsList::index_for_type_id(C1_3,C2_0.1.ty.id)"
-    field = ("((C2_0.0.name==C2_0.1.name)&&if((let (v1::Some($),v1::Some($))=(C2_0.0.type_name,C2_0.1.type_name)&&(let v1::Some($)=%s&&let v1::Some($)=%s))){%s}"
+    field = ("((C2_0.0.name==C2_0.1.name)&&if(((let v1::Some($)=C2_0.0.type_name&&let v1::Some($)=C2_0.1.type_name)&&(let v1::Some($)=%s&&let v1::Some($)=%s))){%s}"
              "else{utils::types_equal_inner(C2_0.0.ty.id,C1_1,C2_0.1.ty.id,C1_3,P4,P5)})") % (IA, IB, tn)
+    # the comparator as a whole: the pieces above say what must be compared; the connectives between them (every `==`, `&&`, `all`) and the
+    # polarity of every test are pinned by the reviewed term of the whole function
+    from .. import desc_rules as _DR
+    expect_term(ctx, R3, "ground/comparator-term", fn["sp"], t, _DR.golden("gen/types_equal_inner"),
+                "equal iff same id, or the pair is already being compared, or both are the same generic parameter, or: same path and the same kind of "
+                "definition with every shape-bearing part equal (lengths, names, indices, element / member / field types with each side's own generics)")
     ctx.expect(field in t, R3, "ground/field-comparison", fn["sp"],
                "two fields are equal iff their names are equal and - when both carry a type name and both types are generic parameters of their own type - the "
                "names resolve to the same parameter index, otherwise iff the field types are equal structurally (each side with its own generics)",
